@@ -52,7 +52,7 @@ func (e *InfraError) Error() string { return e.Msg }
 // Load type-checks ./... of RepoDir (with an optional overlay: absolute file
 // name -> replacement content) and builds SSA.
 func Load(overlay map[string][]byte) (*Prog, error) {
-	env := append(os.Environ(), "GOFLAGS=-mod=mod", "GOWORK=off", "GOPROXY=off", "GOSUMDB=off", "GOTOOLCHAIN=local")
+	env := append(os.Environ(), "GOFLAGS=-mod=mod -trimpath", "GOWORK=off", "GOPROXY=off", "GOSUMDB=off", "GOTOOLCHAIN=local")
 	cfg := &packages.Config{
 		Mode:    packages.LoadSyntax,
 		Dir:     RepoDir,
